@@ -743,6 +743,16 @@ def judge(sc, obs, st, violation, probes, res):
         # (whether that stop took effect is C09's business)
         banned -= {j['name'] for j in o['jobs']
                    if j['op'] == 'stop_current'}
+        # ground truth for the same thing: a job whose own request_stop() ran
+        # during this request (for example one a finishing job's completion
+        # callback took out of the queue while this request was on its way)
+        # did receive the stop-all; whether it obeys is C09's business (a stop
+        # that arrives before the job's first instruction is C09's known
+        # finding)
+        told = {jid for ev, jid in st.get('stops_seen', [])
+                if o['ev0'] <= ev <= o['ev1']}
+        banned -= {j['name'] for j in st['jlog']
+                   if j.get('job_id') in told}
         for k in range(i, len(obs)):
             later = obs[k]
             if k > i:
